@@ -303,6 +303,13 @@ func (s *Stream) startConsume(consumer Consumer, packetType PacketType, extra st
 	cs.Add(c)
 	joinLock.Unlock()
 	verifhook.Point("attach.added", uint32(c.cid))
+	// the stream may have been closed while we were attaching: its sweep can have
+	// missed us, so release the consumer ourselves
+	if atomic.LoadInt32(&s.status) != StreamOK {
+		if c2 := cs.Remove(c.cid); c2 != nil {
+			c2.Close()
+		}
+	}
 
 	go c.consume()
 	return c.cid
